@@ -18,6 +18,7 @@ import (
 
 	"github.com/youzan/ZanRedisDB/common"
 	"github.com/youzan/ZanRedisDB/node"
+	"github.com/youzan/ZanRedisDB/pkg/fileutil"
 	"github.com/youzan/ZanRedisDB/rockredis"
 	"github.com/youzan/ZanRedisDB/server"
 	"github.com/youzan/ZanRedisDB/wal"
@@ -36,6 +37,10 @@ type childCfg struct {
 	// expire times kept in the value header and judged by every read and write (expiration policy wait_compact, value
 	// header v1) instead of the default policy (local deletion by a scanner, reads never look at the expire time)
 	WaitCompact bool
+	// a second run of the node's WAL purger (fileutil.PurgeFile on the wal directory with KeepWAL, as raftNode.purgeFile
+	// starts it) with a tick of 50 ms instead of 10 minutes, started once the node serves: the lives of this harness are
+	// seconds long, the node's own purger only gets to its first pass
+	PurgeTick bool
 	// three-replica mode (follower lives): ID 1..3 of this replica, Base = first port of the group (replica j owns
 	// Base+(j-1)*5 ..+4), Root = the directory that holds the data directories n1, n2, n3, Blocked = start with the
 	// raft messages of the other replicas dropped (the node serves what it recovered, nothing else)
@@ -225,6 +230,11 @@ func runChild(cfg childCfg) {
 			os.Exit(5)
 		}
 		time.Sleep(10 * time.Millisecond)
+	}
+	if cfg.PurgeTick {
+		// (the node's own first pass is over by the time it leads and serves)
+		stopPurge := make(chan struct{})
+		fileutil.PurgeFile(path.Join(cfg.Dir, nsName+"-0", "wal-1"), "wal", uint(cfg.Keep), 50*time.Millisecond, stopPurge)
 	}
 	fmt.Printf("READY\n")
 	// control channel: "ARM <name> <k> <delay_ms>" arms a crash point at run time
